@@ -44,7 +44,10 @@ DIRECT = {
     # outcome of the TCP attempt, delay, what drain() of the PeerInit write does
     'fast': ('ok', D_FAST, 'ok'),
     'slow': ('ok', D_SLOW, 'ok'),
-    'tie': ('ok', None, 'ok'),           # completes in the very instant of the fast indirect event
+    # the TCP attempt ends in the very instant of the fast indirect event, 0..TIE_HOPS-1 loop iterations after that instant's
+    # first timer (a discriminant): covers direct-first, indirect-first and both attempts finishing in ONE wake-up of the race
+    'tie': ('ok', None, 'ok'),
+    'tie_refused': ('refused', None, 'ok'),
     'refused': ('refused', D_FAST, 'ok'),
     'refused_slow': ('refused', D_SLOW, 'ok'),
     'hang': ('hang', 0, 'ok'),
@@ -52,6 +55,7 @@ DIRECT = {
     'init_hang': ('ok', D_FAST, 'hang'),
 }
 DIRECT_OK = ('fast', 'slow', 'tie')
+TIE_HOPS = 12
 
 # (offset after the server got ConnectToPeer, kind, ticket): 'sym' = any 32-bit value, 'ours' = the request's ticket
 INDIRECT = {
@@ -147,16 +151,16 @@ class Event:
         self.after = None        # once the loop has gone idle in that instant: (indirect attempt over?, socket closed?)
 
 
-def h_connect(c, mode, direct, indirect, addr='given', typ='P', decoy=False, cancel=None, k_lo=0, k_hi=0, pin=False):
+def h_connect(c, mode, direct, indirect, addr='given', typ='P', decoy=False, cancel=None, k_lo=0, k_hi=0, pin=False, hops=None):
     loop = SLoop()
     try:
         with environment(c, loop) as (g, wr, tap):
-            _connect(c, loop, g, wr, tap, mode, direct, indirect, addr, typ, decoy, cancel, k_lo, k_hi, pin)
+            _connect(c, loop, g, wr, tap, mode, direct, indirect, addr, typ, decoy, cancel, k_lo, k_hi, pin, hops)
     finally:
         loop.cleanup()
 
 
-def _connect(c, loop, g, wr, tap, mode, direct, indirect, addr, typ, decoy, cancel, k_lo, k_hi, pin):
+def _connect(c, loop, g, wr, tap, mode, direct, indirect, addr, typ, decoy, cancel, k_lo, k_hi, pin, hops):
     sig = [mode, direct, indirect]
     d_outcome, d_delay, d_drain = DIRECT[direct]
     script = INDIRECT[indirect]
@@ -256,11 +260,17 @@ def _connect(c, loop, g, wr, tap, mode, direct, indirect, addr, typ, decoy, canc
     net._ticket_generator = ticket_generator(initial=pos)      # the real generator, at an arbitrary position
     S = {'t_ctp': None, 'gpa': 0, 'ctp': [], 'cc_sent': []}
 
+    tie_hops = 0
+    if d_delay is None:
+        # fallback mode runs the attempts one after the other: the alignment is irrelevant there
+        span = [0] if mode == 'fallback' else (list(hops) if hops is not None else list(range(TIE_HOPS)))
+        tie_hops = c.pick(span, 'tie_alignment') if len(span) > 1 else span[0]
+
     def attempt_script(a):
         delay = d_delay
-        if delay is None:       # 'tie'
+        if delay is None:       # 'tie' / 'tie_refused'
             delay = I_FAST - (GPA_REPLY if addr == 'server' else 0.0)
-        return d_outcome, delay
+        return d_outcome, delay, tie_hops
 
     def writer_setup(a, w):
         if d_drain != 'ok':
@@ -808,6 +818,8 @@ def _requires(mode, d, i, addr):
     hangs = (mode, i, addr) == ('race', 'send_fails', 'server')      # (unrepaired tree: the request never ends there)
     if d == 'tie' or i in TIES:
         return req + ([] if hangs else ['request_ended'])       # deliberate ties: either outcome is fine
+    if d == 'tie_refused':
+        return req + ['request_ended'] + (['returned_indirect'] if i in PIERCING and not hangs else [])
     if not hangs:
         req.append('request_ended')
     if d in DIRECT_OK and not hangs:
@@ -830,12 +842,16 @@ def jobs(tier):
 
     def job(h, fn, req, **p):
         out.append({'harness': h, 'fn': fn, 'params': p, 'requires': req})
+
+    def few(d):
+        # the full range of tie alignments is explored in grid (1); the other grids use the ones around the hand-over
+        return {'hops': [0, 1, 2, 3]} if d in ('tie', 'tie_refused') else {}
     job('select_port', h_select_port, ['selected'])
     for o in BACK:
         for shape in ('full', 'short'):
             job('connect_back', h_connect_back, ['connect_back_end', 'reported'] + (['pierced'] if o in ('ok', 'ok_slow') else []),
                 outcome=o, shape=shape)
-    directs = QD + ([] if q else ['tie', 'refused_slow', 'init_hang'])
+    directs = QD + ([] if q else ['tie', 'tie_refused', 'refused_slow', 'init_hang'])
     indirects = QI + ([] if q else ['send_hangs', 'stranger_then_pierce', 'pierce_then_cannot', 'pierce_at_timeout', 'pierce_after_timeout'])
     typs = ['P', 'F', 'D']
     n = 0
@@ -850,6 +866,11 @@ def jobs(tier):
         for mode in ('fallback', 'race'):
             job('connect', h_connect, _requires(mode, 'refused', 'pierce_after_timeout', 'given'), mode=mode, direct='refused',
                 indirect='pierce_after_timeout', addr='given', typ='P')
+        # both attempts end in one instant of the race, every alignment of the two within that instant (direct first, indirect
+        # first, both finished in ONE wake-up of the race): two successes; success + CannotConnect; refusal + pierce
+        for d, i, typ in (('tie', 'pierce_fast', 'P'), ('tie', 'cannot_fast', 'F'), ('tie_refused', 'pierce_fast', 'D')):
+            job('connect', h_connect, _requires('race', d, i, 'given') + (['returned_indirect', 'returned_direct'] if d == 'tie' else []),
+                mode='race', direct=d, indirect=i, addr='given', typ=typ)
     # (2) address from the server (symbolic GetPeerAddress answer, optionally preceded by an answer for a symbolic other user)
     sd = ['fast', 'refused', 'hang'] if q else directs
     si = ['pierce_fast', 'cannot_fast', 'silence', 'send_fails'] if q else indirects
@@ -858,7 +879,7 @@ def jobs(tier):
             for i in si:
                 for decoy in ([bool(n % 2)] if q else [False, True]):
                     job('connect', h_connect, [r for r in _requires(mode, d, i, 'server') if r != 'direct_attempted' or i != 'send_fails' or mode != 'race'],
-                        mode=mode, direct=d, indirect=i, addr='server', typ=typs[n % 3], decoy=decoy)
+                        mode=mode, direct=d, indirect=i, addr='server', typ=typs[n % 3], decoy=decoy, **few(d))
                 n += 1
     # (3) cancellation of the request: at every instant at which the loop goes idle ...
     creq = ['request_started', 'cancel_injected', 'scenario_end']
@@ -866,7 +887,7 @@ def jobs(tier):
         for d in directs:
             for i in indirects:
                 job('connect', h_connect, creq, mode=mode, direct=d, indirect=i, addr='given', typ=typs[n % 3], cancel='idle', k_lo=0, k_hi=16,
-                    pin=True)
+                    pin=True, **few(d))
                 n += 1
     # ... and before every single loop step
     cd = ['fast', 'hang', 'init_hang'] if q else directs
@@ -876,7 +897,7 @@ def jobs(tier):
             for i in ci:
                 for a in (['given'] if q else ['given', 'server']):
                     job('connect', h_connect, creq, mode=mode, direct=d, indirect=i, addr=a, typ=typs[n % 3], cancel='step', k_lo=0,
-                        k_hi=48, pin=True)
+                        k_hi=48, pin=True, **few(d))
                 n += 1
     return out
 
